@@ -84,6 +84,24 @@ def oracleTable (key : String) (r : Req) : List Rat → Py (List Int) := fun x =
     | .error _ => .error .other
   | .error _ => .error .other
 
+/-- stand-in for an oracle whose single answer is supplied in the request (`"oracle": {key: value}`, or `key_err`) -/
+def oracleConst {α β : Type} [JCodec β] (key : String) (r : Req) : α → Py β := fun _ =>
+  match r.oracle.getObjVal? key with
+  | .ok j =>
+    match (JCodec.dec j : Except String β) with
+    | .ok v => .ok v
+    | .error _ => .error .other
+  | .error _ => .error (oracleErr key r)
+
+/-- the same for an oracle of five arguments -/
+def oracleConst5 {α β γ δ ε ζ : Type} [JCodec ζ] (key : String) (r : Req) : α → β → γ → δ → ε → Py ζ := fun _ _ _ _ _ =>
+  match r.oracle.getObjVal? key with
+  | .ok j =>
+    match (JCodec.dec j : Except String ζ) with
+    | .ok v => .ok v
+    | .error _ => .error .other
+  | .error _ => .error (oracleErr key r)
+
 /-- stand-in for the eigen-solver oracle (called once): `"oracle": {key: [eigenvalues, eigenvectors]}`, or
 `{key ++ "_err": kind}` when the real solver raised -/
 def oracleEig (key : String) (r : Req) : List (List Rat) → Int → Py (List Rat × List (List Rat)) := fun _ _ =>
